@@ -78,12 +78,15 @@ if not a.skip_confirm:
                 res["confirmed"]["existing_tests_output_tail"] = outt[-1500:]
     finally:
         sh("git -C /repo worktree remove --force %s" % wt)
-# run the checks against the change
+# run the checks against the change — in a scratch worktree (VERIF_REPO), /repo itself stays untouched
 if a.checks:
-    rc, out = sh("git -C /repo status --porcelain")
-    assert out.strip() == "", "repo not clean: " + out
-    rc, out = sh("git -C /repo apply %s" % patch)
+    awt = "/tmp/sv_apply_%s" % a.name
+    sh("git -C /repo worktree remove --force %s" % awt)
+    rc, out = sh("git -C /repo worktree add --detach %s HEAD" % awt)
     assert rc == 0, out
+    rc, out = sh("git apply %s" % patch, cwd=awt)
+    assert rc == 0, out
+    env["VERIF_REPO"] = awt
     try:
         for c in a.checks.split(","):
             t0 = time.time()
@@ -97,7 +100,10 @@ if a.checks:
                                 "lines": [l for l in out.splitlines() if l.startswith(("VIOLATION", "OK", "KNOWN"))][:4],
                                 "wall_s": round(time.time() - t0, 1)}
     finally:
-        sh("git -C /repo checkout -- . && git -C /repo clean -fdq")
+        env.pop("VERIF_REPO", None)
+        sh("git -C /repo worktree remove --force %s" % awt)
+        # leave Generated/ in the state of the real repository
+        sh("/verif/.work/bin/factgen -repo /repo -out /verif/lean/ConduitModel/ConduitModel/Generated -json /tmp/facts_restore.json")
 dst = "/verif/seeded/%s" % a.name
 os.makedirs(dst, exist_ok=True)
 shutil.copy(patch, os.path.join(dst, "patch.diff"))
